@@ -156,51 +156,40 @@ theorem scaledValidate_denotes {scale min max ar rr : F} {v : PVal F} {r : F}
     DenotesScaled scale min max v r := by
   simp only [DType.WF] at hwf
   obtain ⟨hs, hp, _, _, hle, hcmin, hcmax, _⟩ := hwf
-  unfold scaledValidate at h
-  split at h
-  · cases h
-  · rename_i result hres
-    split at h
-    · cases h
-    · rename_i x hx
-      split at h
-      · rename_i hguard
-        simp only [Bool.and_eq_true] at hguard
-        split at h
-        · rename_i lo hi hlo hhi
-          injection h with h
-          obtain ⟨slo, dlo⟩ := scaledCall_limit hcmin hlo
-          obtain ⟨shi, dhi⟩ := scaledCall_limit hcmax hhi
-          have hlohi := snap_mono hs hp hle dlo dhi
-          obtain ⟨_, _, _, _, _, _, _, flo⟩ := scaledCall_ok hlo
-          obtain ⟨_, _, _, _, _, _, _, fhi⟩ := scaledCall_ok hhi
-          obtain ⟨x', k, y, hx', hk, hy, hr, fres⟩ := scaledCall_ok hres
-          rw [hx] at hx'; injection hx' with hx'; subst hx'
-          have nlo := notNaN_of_finite flo
-          have nhi := notNaN_of_finite fhi
-          have nres := notNaN_of_finite fres
-          have hg : ofGrid scale k = some result := by unfold ofGrid; rw [hy, hr]
-          unfold DenotesScaled
-          rw [hx]; simp only
-          rw [hk]; simp only
-          rw [hg, slo, shi]; simp only
-          refine ⟨hguard.1, hguard.2, ?_⟩
-          rw [← h]
-          unfold median3
-          by_cases h1 : le lo result = true
-          · by_cases h2 : le result hi = true
-            · left; simp [h1, h2, same_refl]
-            · right; right
-              have h2f : le result hi = false := by simpa using h2
-              simp [h1, h2f, hlohi, same_refl]
-              exact lt_of_not_le nres nhi h2f
-          · right; left
-            have h1f : le lo result = false := by simpa using h1
-            simp [h1f, hlohi, same_refl]
-            exact lt_of_not_le nlo nres h1f
-        · cases h
-        · cases h
-      · cases h
+  obtain ⟨result, lo, hi, x, hres, hlo, hhi, hx, hcase⟩ := scaledValidate_ok h
+  obtain ⟨slo, dlo⟩ := scaledCall_limit hcmin hlo
+  obtain ⟨shi, dhi⟩ := scaledCall_limit hcmax hhi
+  have hlohi := snap_mono hs hp hle dlo dhi
+  obtain ⟨_, _, _, _, _, _, _, flo⟩ := scaledCall_ok hlo
+  obtain ⟨_, _, _, _, _, _, _, fhi⟩ := scaledCall_ok hhi
+  obtain ⟨x', k, y, hx', hk, hy, hr, fres⟩ := scaledCall_ok hres
+  rw [hx] at hx'; injection hx' with hx'; subst hx'
+  have nlo := notNaN_of_finite flo
+  have nhi := notNaN_of_finite fhi
+  have nres := notNaN_of_finite fres
+  have hg : ofGrid scale k = some result := by unfold ofGrid; rw [hy, hr]
+  unfold DenotesScaled
+  rw [hx]; simp only
+  rw [hk]; simp only
+  rw [hg, slo, shi]; simp only
+  rcases hcase with ⟨h1, h2, hr'⟩ | ⟨hnot, g1, g2, hr'⟩
+  · left; rw [hr']; exact ⟨same_refl _, h1, h2⟩
+  · right
+    refine ⟨g1, g2, ?_⟩
+    rw [hr']
+    unfold median3
+    by_cases h1 : le lo result = true
+    · have h2f : le result hi = false := by
+        cases h2 : le result hi
+        · rfl
+        · rw [h1, h2] at hnot; cases hnot
+      right
+      simp [h1, h2f, hlohi, same_refl]
+      exact lt_of_not_le nres nhi h2f
+    · left
+      have h1f : le lo result = false := by simpa using h1
+      simp [h1f, hlohi, same_refl]
+      exact lt_of_not_le nlo nres h1f
 
 theorem boolCall_denotes {v : PVal F} {b : Bool} (h : boolCall v = .ok b) :
     intLike? v = some (if b then 1 else 0) := by
